@@ -704,3 +704,39 @@ pub fn unhex(s: &str) -> Vec<u8> {
         .map(|i| u8::from_str_radix(&s[2 * i..2 * i + 2], 16).unwrap())
         .collect()
 }
+
+/// Number of inputs/prefixes handed to the library with a storage offset other than zero.
+pub static UNALIGNED_INPUTS_MADE: std::sync::atomic::AtomicU64 = std::sync::atomic::AtomicU64::new(0);
+
+/// The bit string as an `IdpfInput`. About one value in three (decided by the bits themselves, so the
+/// choice is reproducible) is built through the public `From<BitBox>` from a bit slice that does NOT start
+/// at bit 0 of its first storage word (junk bits in front): equal, equally ordered and equally encoded
+/// inputs whose backing storage differs. Every Poplar1/IDPF driver that goes through here therefore mixes
+/// storage offsets among inputs, candidate prefixes and cache keys; results must not depend on it.
+pub fn to_input(b: &[bool]) -> prio::idpf::IdpfInput {
+    use prio::idpf::IdpfInput;
+    use bitvec::prelude::*;
+    let mut h: u64 = 0xcbf2_9ce4_8422_2325 ^ b.len() as u64;
+    for (i, x) in b.iter().enumerate().take(256) {
+        if *x {
+            h ^= (i as u64 + 1).wrapping_mul(0x9E37_79B9_7F4A_7C15);
+            h = h.rotate_left(7).wrapping_mul(0x1000_0000_01b3);
+        }
+    }
+    h ^= h >> 29;
+    if h % 3 != 0 {
+        return IdpfInput::from_bools(b);
+    }
+    const OFFS: [usize; 8] = [1, 7, 8, 31, 33, 63, 64, 65];
+    let off = OFFS[((h >> 8) % 8) as usize];
+    let mut bv: BitVec<usize, Lsb0> = BitVec::with_capacity(off + b.len());
+    for i in 0..off {
+        bv.push(i % 3 != 1);
+    }
+    for x in b {
+        bv.push(*x);
+    }
+    UNALIGNED_INPUTS_MADE.fetch_add(1, std::sync::atomic::Ordering::Relaxed);
+    IdpfInput::from(BitBox::from_bitslice(&bv[off..]))
+}
+
